@@ -306,4 +306,198 @@ Proof.
   destruct sx; reflexivity.
 Qed.
 
+(* ------------------------------------------------------------------------- *)
+(** * The rounded operations on finite operands *)
+
+Definition clamp (r : R) : R := Rmax (- M) (Rmin M r).
+
+Lemma clamp_le a b : a <= b -> clamp a <= clamp b.
+Proof. unfold clamp, Rmax, Rmin. repeat destruct Rle_dec; lra. Qed.
+Lemma clamp_id r : Rabs r < M -> clamp r = r.
+Proof. intros H. apply Rabs_lt_inv in H. unfold clamp, Rmax, Rmin. repeat destruct Rle_dec; lra. Qed.
+Lemma clamp_hi r : M <= r -> clamp r = M.
+Proof. generalize M_pos. unfold clamp, Rmax, Rmin. repeat destruct Rle_dec; lra. Qed.
+Lemma clamp_lo r : r <= - M -> clamp r = - M.
+Proof. generalize M_pos. unfold clamp, Rmax, Rmin. repeat destruct Rle_dec; lra. Qed.
+Lemma clamp_nonneg r : 0 <= r -> 0 <= clamp r.
+Proof. generalize M_pos. unfold clamp, Rmax, Rmin. repeat destruct Rle_dec; lra. Qed.
+Lemma clamp_eq_0 r : clamp r = 0 -> r = 0.
+Proof. generalize M_pos. unfold clamp, Rmax, Rmin. repeat destruct Rle_dec; lra. Qed.
+
+Lemma rnd_le a b : a <= b -> rnd a <= rnd b.
+Proof. apply round_le; auto with typeclass_instances. Qed.
+Lemma rnd_0 : rnd 0 = 0.
+Proof. apply round_0; auto with typeclass_instances. Qed.
+Lemma rnd_B2R (x : bf) : rnd (SN.B2R x) = SN.B2R x.
+Proof. apply round_generic; auto with typeclass_instances. apply SN.generic_format_B2R. Qed.
+
+Lemma sign_B2R (x : bf) :
+  (SN.Bsign x = false -> 0 <= SN.B2R x) /\ (SN.Bsign x = true -> SN.B2R x <= 0).
+Proof.
+  destruct x as [s|s| |s m e H]; cbn [SN.Bsign SN.B2R]; split; intros E; try lra; subst.
+  - apply F2R_ge_0. cbn. lia.
+  - apply F2R_le_0. cbn. lia.
+Qed.
+
+Lemma finite_not_nan (x : bf) : SN.is_finite x = true -> SN.is_nan x = false.
+Proof. now destruct x. Qed.
+
+Lemma overflow_is_inf (z : bf) s : SN.B2SF z = SN.binary_overflow prec emax mode_NE s -> z = SN.B754_infinity s.
+Proof. intros E. apply SN.B2SF_inj. exact E. Qed.
+
+Lemma add_finite (x y : bf) :
+  SN.is_finite x = true -> SN.is_finite y = true ->
+  SN.is_nan (add x y) = false /\ xR (add x y) = clamp (rnd (SN.B2R x + SN.B2R y)).
+Proof.
+  intros Fx Fy. generalize (SN.Bplus_correct prec emax _ _ mode_NE x y Fx Fy).
+  unfold ff_add. cbn [SN.round_mode].
+  case Rlt_bool_spec; intros Hlt.
+  - intros (E & F & _). split. { now apply finite_not_nan. }
+    rewrite xR_finite, E by assumption. symmetry. now apply clamp_id.
+  - intros (E & S). apply overflow_is_inf in E. rewrite E. split; trivial.
+    destruct (sign_B2R x) as [Px Nx], (sign_B2R y) as [Py Ny]. rewrite <- S in Py, Ny.
+    destruct (SN.Bsign x); cbn [xR]; symmetry.
+    + apply clamp_lo. specialize (Nx eq_refl). specialize (Ny eq_refl).
+      assert (H : rnd (SN.B2R x + SN.B2R y) <= 0) by (rewrite <- rnd_0; apply rnd_le; lra).
+      rewrite Rabs_left1 in Hlt by assumption. lra.
+    + apply clamp_hi. specialize (Px eq_refl). specialize (Py eq_refl).
+      assert (H : 0 <= rnd (SN.B2R x + SN.B2R y)) by (rewrite <- rnd_0; apply rnd_le; lra).
+      rewrite Rabs_pos_eq in Hlt by assumption. lra.
+Qed.
+
+Lemma mul_finite (x y : bf) :
+  SN.is_finite x = true -> SN.is_finite y = true ->
+  SN.is_nan (mul x y) = false /\ xR (mul x y) = clamp (rnd (SN.B2R x * SN.B2R y)).
+Proof.
+  intros Fx Fy. generalize (SN.Bmult_correct prec emax _ _ mode_NE x y).
+  unfold ff_mul. cbn [SN.round_mode].
+  case Rlt_bool_spec; intros Hlt.
+  - rewrite Fx, Fy. intros (E & F & _). split. { now apply finite_not_nan. }
+    rewrite xR_finite, E by assumption. symmetry. now apply clamp_id.
+  - intros E. apply overflow_is_inf in E. rewrite E. split; trivial.
+    destruct (sign_B2R x) as [Px Nx], (sign_B2R y) as [Py Ny].
+    destruct (SN.Bsign x), (SN.Bsign y); cbn [xorb xR]; symmetry.
+    + apply clamp_hi. specialize (Nx eq_refl). specialize (Ny eq_refl).
+      assert (H : 0 <= rnd (SN.B2R x * SN.B2R y)) by (rewrite <- rnd_0; apply rnd_le; nra).
+      rewrite Rabs_pos_eq in Hlt by assumption. lra.
+    + apply clamp_lo. specialize (Nx eq_refl). specialize (Py eq_refl).
+      assert (H : rnd (SN.B2R x * SN.B2R y) <= 0) by (rewrite <- rnd_0; apply rnd_le; nra).
+      rewrite Rabs_left1 in Hlt by assumption. lra.
+    + apply clamp_lo. specialize (Px eq_refl). specialize (Ny eq_refl).
+      assert (H : rnd (SN.B2R x * SN.B2R y) <= 0) by (rewrite <- rnd_0; apply rnd_le; nra).
+      rewrite Rabs_left1 in Hlt by assumption. lra.
+    + apply clamp_hi. specialize (Px eq_refl). specialize (Py eq_refl).
+      assert (H : 0 <= rnd (SN.B2R x * SN.B2R y)) by (rewrite <- rnd_0; apply rnd_le; nra).
+      rewrite Rabs_pos_eq in Hlt by assumption. lra.
+Qed.
+
+(* ------------------------------------------------------------------------- *)
+(** * Multiplicative identity: rounding a representable value is the identity *)
+
+Lemma one_shape : exists m e H, one = SN.B754_finite false m e H.
+Proof.
+  generalize (@SN.is_finite_strict_Bone prec emax prec_gt_0_ prec_lt_emax_)
+             (@SN.Bsign_Bone prec emax prec_gt_0_ prec_lt_emax_).
+  unfold ff_one. destruct (@SN.Bone prec emax prec_gt_0_ prec_lt_emax_) as [s|s| |s m e H]; try discriminate.
+  cbn. intros _ ->. now exists m, e, H.
+Qed.
+
+Theorem ff_mul_one (x : bf) : mul x one = x /\ mul one x = x.
+Proof.
+  assert (A : mul x one = x).
+  { destruct (SN.is_finite x) eqn:Fx.
+    - generalize (SN.Bmult_correct prec emax _ _ mode_NE x one).
+      unfold ff_mul, ff_one. rewrite SN.Bone_correct, Rmult_1_r. cbn [SN.round_mode].
+      rewrite rnd_B2R, Rlt_bool_true by apply SN.abs_B2R_lt_emax.
+      rewrite Fx, SN.is_finite_Bone, SN.Bsign_Bone, xorb_false_r.
+      intros (E & F & S). apply SN.B2R_Bsign_inj; trivial. apply S. now apply finite_not_nan.
+    - destruct one_shape as (m & e & H & ->).
+      destruct x as [sx|sx| |sx mx ex Hx]; try discriminate; cbn; trivial. now rewrite xorb_false_r. }
+  split; trivial. now rewrite ff_mul_comm.
+Qed.
+
+Lemma nan_to_num_real_id (x : bf) :
+  SN.is_nan x = false -> x <> ninf -> ff_nan_to_num prec emax x zero inf (ff_lowest prec emax prec_gt_0_ prec_lt_emax_) = x.
+Proof. destruct x as [s|[|]| |s m e H]; intros N Hn; try discriminate; trivial. now elim Hn. Qed.
+
+Lemma nan_to_num_vit_id (x : bf) :
+  SN.is_nan x = false -> ff_nan_to_num prec emax x ninf inf ninf = x.
+Proof. destruct x as [s|[|]| |s m e H]; intros N; try discriminate; trivial. Qed.
+
+Theorem ff_real_mul_one (x : bf) :
+  SN.is_nan x = false -> x <> ninf -> real_mul x one = x /\ real_mul one x = x.
+Proof.
+  intros N Hn. unfold ff_real_mul. destruct (ff_mul_one x) as [-> ->].
+  split; now apply nan_to_num_real_id.
+Qed.
+
+(* ------------------------------------------------------------------------- *)
+(** * Monotonicity (rounding is monotone) *)
+
+Lemma leb_inf_r (x : bf) : SN.is_nan x = false -> leb x inf = true.
+Proof. destruct x as [s|[|]| |[|] m e H]; intros N; try discriminate; reflexivity. Qed.
+Lemma leb_ninf_l (x : bf) : SN.is_nan x = false -> leb ninf x = true.
+Proof. destruct x as [s|[|]| |[|] m e H]; intros N; try discriminate; reflexivity. Qed.
+Lemma real_mul_not_nan (a c : bf) : SN.is_nan (real_mul a c) = false.
+Proof. unfold ff_real_mul. destruct (mul a c) as [s|[|]| |s m e H]; reflexivity. Qed.
+Lemma vit_mul_not_nan (a c : bf) : SN.is_nan (vit_mul a c) = false.
+Proof. unfold ff_vit_mul. destruct (add a c) as [s|[|]| |s m e H]; reflexivity. Qed.
+
+(** RealSemiring.add on the carrier [0, +inf] *)
+Theorem ff_add_mono (a b c : bf) :
+  nonneg a = true -> nonneg c = true -> leb a b = true -> leb (add a c) (add b c) = true.
+Proof.
+  intros Pa Pc Lab.
+  destruct (SN.is_finite a) eqn:Fa; [destruct (SN.is_finite b) eqn:Fb; [destruct (SN.is_finite c) eqn:Fc|]|].
+  1: { apply leb_le in Lab. destruct Lab as (_ & _ & Lab). rewrite !xR_finite in Lab by assumption.
+       destruct (add_finite a c Fa Fc) as [N1 E1], (add_finite b c Fb Fc) as [N2 E2].
+       apply leb_le. repeat split; trivial. rewrite E1, E2. apply clamp_le, rnd_le. lra. }
+  all: destruct a as [[|]|[|]| |[|] ma ea Ha], b as [[|]|[|]| |[|] mb eb Hb], c as [[|]|[|]| |[|] mc ec Hc];
+    try discriminate; try reflexivity;
+    apply leb_inf_r; apply add_finite; reflexivity.
+Qed.
+
+Lemma mul_nonneg_xR (a c : bf) :
+  SN.is_finite a = true -> SN.is_finite c = true -> 0 <= SN.B2R a -> 0 <= SN.B2R c ->
+  real_mul a c = mul a c /\ SN.is_nan (mul a c) = false /\ xR (mul a c) = clamp (rnd (SN.B2R a * SN.B2R c)).
+Proof.
+  intros Fa Fc Pa Pc. destruct (mul_finite a c Fa Fc) as [N E]. repeat split; trivial.
+  unfold ff_real_mul. apply nan_to_num_real_id; trivial. intros Hn. rewrite Hn in E. cbn [xR ff_ninf] in E.
+  assert (H : 0 <= clamp (rnd (SN.B2R a * SN.B2R c))).
+  { apply clamp_nonneg. rewrite <- rnd_0. apply rnd_le. nra. }
+  generalize M_pos. lra.
+Qed.
+
+(** RealSemiring.mul on the carrier [0, +inf], [0 * inf = 0] included *)
+Theorem ff_real_mul_mono (a b c : bf) :
+  nonneg a = true -> nonneg c = true -> leb a b = true -> leb (real_mul a c) (real_mul b c) = true.
+Proof.
+  intros Pa Pc Lab.
+  destruct (SN.is_finite a) eqn:Fa; [destruct (SN.is_finite b) eqn:Fb; [destruct (SN.is_finite c) eqn:Fc|]|].
+  1: { apply leb_le in Lab, Pa, Pc. destruct Lab as (_ & _ & Lab), Pa as (_ & _ & Pa), Pc as (_ & _ & Pc).
+       rewrite !xR_finite in Lab, Pa, Pc by (assumption || reflexivity). cbn [SN.B2R ff_zero] in Pa, Pc.
+       destruct (mul_nonneg_xR a c) as (-> & N1 & E1); trivial.
+       destruct (mul_nonneg_xR b c) as (-> & N2 & E2); trivial; try lra.
+       apply leb_le. repeat split; trivial. rewrite E1, E2. apply clamp_le, rnd_le.
+       now apply Rmult_le_compat_r. }
+  all: destruct a as [[|]|[|]| |[|] ma ea Ha], b as [[|]|[|]| |[|] mb eb Hb], c as [[|]|[|]| |[|] mc ec Hc];
+    try discriminate; try reflexivity;
+    apply leb_inf_r, real_mul_not_nan.
+Qed.
+
+(** ViterbiSemiring.mul / LogSemiring.mul on the whole format *)
+Theorem ff_vit_mul_mono (a b c : bf) :
+  leb a b = true -> leb (vit_mul a c) (vit_mul b c) = true.
+Proof.
+  intros Lab.
+  destruct (SN.is_finite a) eqn:Fa; [destruct (SN.is_finite b) eqn:Fb; [destruct (SN.is_finite c) eqn:Fc|]|].
+  1: { apply leb_le in Lab. destruct Lab as (_ & _ & Lab). rewrite !xR_finite in Lab by assumption.
+       destruct (add_finite a c Fa Fc) as [N1 E1], (add_finite b c Fb Fc) as [N2 E2].
+       unfold ff_vit_mul. rewrite !nan_to_num_vit_id by assumption.
+       apply leb_le. repeat split; trivial. rewrite E1, E2. apply clamp_le, rnd_le. lra. }
+  all: destruct a as [[|]|[|]| |[|] ma ea Ha], b as [[|]|[|]| |[|] mb eb Hb], c as [[|]|[|]| |[|] mc ec Hc];
+    try discriminate; try reflexivity;
+    solve [apply leb_inf_r, vit_mul_not_nan | apply leb_ninf_l, vit_mul_not_nan].
+Qed.
+
 End Laws.
